@@ -1,7 +1,7 @@
-\* emission: 2 blocks; any structural call; any call
+\* emission, thorough: one block; any structural call; any call (observers included) - every offset and size
 SPECIFICATION MCSpec
 CONSTANTS
-  Handles = {0, 1, 2}
+  Handles = {0, 1}
   Fill = 14
   Strict = TRUE
   KeepHist = TRUE
@@ -11,10 +11,13 @@ CONSTANTS
   MaxWins = 6
   Depth = 2
   PatSet = "c02"
-  InitSet = "two"
+  InitSet = "one"
   ObsLast = TRUE
   Rand = FALSE
   Letters = {0, 1}
+  LastOps = {}
+  LastSz = {}
+  Dom = "all"
   Ops = {"alloc", "dup", "splice", "split", "copy", "merge", "append", "insert", "delete", "truncate", "resize", "prepend", "wmap", "poke", "free", "size", "read", "rd1", "peek", "extract", "iovec", "slin", "scan", "find", "compare", "equal", "match"}
 INVARIANT Emit
 CONSTRAINT Bounded
